@@ -195,6 +195,29 @@ func runC07Case(cc *c07Case) *c07Result {
 		res.obs["parked_at_close."+k]++
 	}
 
+	// slow clients: responses of non-blocking requests whose body is being written to a client that
+	// has stopped reading when Close is called (the handler is inside ResponseWriter.Write). Close
+	// must not depend on them.
+	slowGate := make(chan struct{})
+	var slow []*hx.Req
+	if hasContent && cc.Index%3 == 1 {
+		urls := []string{"index.m3u8", lead + "_stream.m3u8"}
+		if lastPL != nil && len(lastPL.Segments) > 0 && !lastPL.Segments[len(lastPL.Segments)-1].Gap {
+			urls = append(urls, lastPL.Segments[len(lastPL.Segments)-1].URI)
+		}
+		for _, u := range urls[:1+rng.Intn(len(urls))] {
+			q := hx.StartGated(h.M.Handle, u, nil, slowGate)
+			select {
+			case <-q.AtGate:
+				slow = append(slow, q)
+				res.obs["slow_clients_mid_response_at_close"]++
+			case <-time.After(watchdog):
+				// the request parked or failed before writing a body: not a slow-client case
+			}
+		}
+	}
+	defer close(slowGate)
+
 	// schedule control
 	var closeReturned atomic.Bool
 	closeDone := make(chan struct{})
@@ -268,7 +291,7 @@ func runC07Case(cc *c07Case) *c07Result {
 	select {
 	case <-closeDone:
 	case <-time.After(watchdog):
-		fail("close-hangs", "Close did not return (schedule %s, %d pending)", cc.Schedule, len(pending))
+		fail("close-hangs", "Close did not return (schedule %s, %d pending, %d slow clients in the middle of a response)", cc.Schedule, len(pending), len(slow))
 		return res
 	}
 	hx.OnKey(key, func(string, any) {})
